@@ -108,6 +108,7 @@ Step(p) ==
     [] e.ev = "send" -> Send(e.c, e.k) /\ Consume
     [] e.ev = "close" -> (ClientClose(e.c) \/ (net[e.c] # "open" /\ Same)) /\ Consume
     [] e.ev = "stopreading" -> StopReading(e.c) /\ Consume
+    [] e.ev = "timeout" -> ReadDeadline(e.c) /\ Consume
     \* the client saw the server's FIN / RST (a TLS alert in front of it says nothing about the socket yet)
     [] e.ev = "eof" -> ((InConns(e.c) /\ e.val \in RealEOF) => sock[e.c] = "closed") /\ Same /\ Consume
     [] OTHER -> Same /\ Consume
